@@ -2,10 +2,13 @@
 //
 // Child module of client/mod.rs: sees the private fields and functions of MqttClientImpl.
 // Properties: C19 (reconnect back-off), C11 (no panic for accepted configurations).
-use super::{MqttClientImpl, ClientImplState};
+use super::{MqttClientImpl, ClientImplState, ClientEvent};
 use crate::client::config::{ReconnectOptions, ExponentialBackoffJitterType, ConnectOptions, OfflineQueuePolicy,
     ProtocolMode, PostReconnectQueueDrainPolicy, MqttClientOptions};
-use crate::protocol::{ProtocolState, ProtocolStateConfig};
+use crate::protocol::{ProtocolState, ProtocolStateConfig, NetworkEventContext, NetworkEvent};
+use crate::mqtt::{ConnackPacket, ConnectReasonCode};
+use crate::error::GneissResult;
+use std::sync::Arc;
 use std::collections::VecDeque;
 use std::time::{Duration, Instant};
 
@@ -173,4 +176,125 @@ fn c19_initial() {
     let w1 = c.advance_reconnect_period();
     assert!(w1 == oracle_next(lo, eff_max));
     std::mem::forget(c);
+}
+
+// ------------------------------------------------------------------------------------------------
+// transition_to_state: the back-off reset rule (C19) and arithmetic on accepted configuration (C11).
+// The engine entry point and the listener broadcast are replaced by recorders: what the engine does with the
+// open/close events is the subject of the protocol harnesses, event delivery to listeners is C12's (declined) subject.
+// ------------------------------------------------------------------------------------------------
+
+static mut NET_EVENTS: u32 = 0;
+static mut NET_LAST_OPEN_TIMEOUT: Option<Instant> = None;
+static mut NET_LAST_KIND: u8 = 0; // 1 opened, 2 closed, 3 other
+fn stub_handle_network_event(_this: &mut ProtocolState, ctx: &mut NetworkEventContext) -> GneissResult<()> {
+    unsafe {
+        NET_EVENTS += 1;
+        match &ctx.event {
+            NetworkEvent::ConnectionOpened(c) => { NET_LAST_KIND = 1; NET_LAST_OPEN_TIMEOUT = Some(c.establishment_timeout); }
+            NetworkEvent::ConnectionClosed => { NET_LAST_KIND = 2; }
+            _ => { NET_LAST_KIND = 3; }
+        }
+    }
+    Ok(())
+}
+
+static mut EV_N: usize = 0;
+static mut EV_KIND: [u8; 4] = [0; 4]; // 1 attempt, 2 success, 3 failure, 4 disconnection, 5 stopped
+fn stub_broadcast(_this: &MqttClientImpl, event: Arc<ClientEvent>) {
+    let k = match &*event { ClientEvent::ConnectionAttempt(_) => 1, ClientEvent::ConnectionSuccess(_) => 2, ClientEvent::ConnectionFailure(_) => 3,
+                            ClientEvent::Disconnection(_) => 4, ClientEvent::Stopped(_) => 5, _ => 9 };
+    unsafe { if EV_N < 4 { EV_KIND[EV_N] = k; } EV_N += 1; }
+    std::mem::forget(event);
+}
+
+static mut CLOCK: Option<Instant> = None;
+fn stub_now_fixed() -> Instant { unsafe { CLOCK.unwrap() } }
+
+fn reset_rule_body(had_success: bool, connack_ok: bool) {
+    let mut opts = any_options(any_jitter());
+    opts.normalize();
+    let next = any_duration();
+    kani::assume(next >= opts.base_reconnect_period && next <= opts.max_reconnect_period);
+    let mut c = mk_client(opts, next);
+    c.current_state = ClientImplState::Connected;
+    c.desired_state = ClientImplState::Connected;
+    let t0_s: u32 = kani::any();
+    let t0 = zero_instant() + Duration::from_secs(t0_s as u64);
+    let lifetime = Duration::new(kani::any::<u32>() as u64, kani::any::<u32>() % 1_000_000_000);
+    let now = t0 + lifetime;
+    unsafe { CLOCK = Some(now); NET_EVENTS = 0; EV_N = 0; }
+    c.successful_connect_time = if had_success { Some(t0) } else { None };
+    c.last_connack = if connack_ok { Some(ConnackPacket { reason_code: ConnectReasonCode::Success, ..Default::default() }) } else { None };
+    let r = c.transition_to_state(ClientImplState::PendingReconnect);
+    assert!(r.is_ok());
+    let stable = had_success && lifetime > opts.reconnect_stability_reset_period;
+    kani::cover!(!had_success || stable, "connection outlived the stability period");
+    kani::cover!(!had_success || (!stable && lifetime == opts.reconnect_stability_reset_period), "connection lasted exactly the stability period (no reset)");
+    // the sequence restarts from the base period only after a connection stayed established LONGER than the stability period
+    assert!(c.next_reconnect_period == if stable { opts.base_reconnect_period } else { next }, "gv: the back-off restarts from the base period exactly when the connection outlived the stability period");
+    // ... and that connection's timestamp is consumed: it must not influence the outcome of a later attempt
+    assert!(c.successful_connect_time.is_none(), "gv: the time of the last successful connection must be forgotten when the connection ends");
+    assert!(c.current_state == ClientImplState::PendingReconnect);
+    // the engine is told about the closed connection exactly once; exactly one outcome event is emitted
+    assert!(unsafe { NET_EVENTS } == 1 && unsafe { NET_LAST_KIND } == 2);
+    assert!(unsafe { EV_N } == 1 && unsafe { EV_KIND[0] } == if connack_ok { 4 } else { 3 });
+    std::mem::forget(r); std::mem::forget(c);
+}
+
+// @gv props=C19 tier=quick required=yes fns=MqttClientImpl::transition_to_state
+// @gv bounds="leaving Connected after a successful CONNACK: any normalized options, any current period in [base,max], any connection lifetime (seconds < 2^32 + nanoseconds), any stability period"
+// @gv stubs="ProtocolState::handle_network_event -> recorder; MqttClientImpl::broadcast_event -> recorder; Instant::now -> symbolic instant; RandomState::new -> fixed keys"
+// @gv timeout=900
+#[kani::proof]
+#[kani::unwind(4)]
+#[kani::stub(std::fmt::format, stub_format)]
+#[kani::stub(std::hash::RandomState::new, stub_random_state_new)]
+#[kani::stub(std::time::Instant::now, stub_now_fixed)]
+#[kani::stub(crate::protocol::ProtocolState::handle_network_event, stub_handle_network_event)]
+#[kani::stub(crate::client::MqttClientImpl::broadcast_event, stub_broadcast)]
+fn c19_reset_after_stable_connection() { reset_rule_body(true, true) }
+
+// @gv props=C19 tier=quick required=yes fns=MqttClientImpl::transition_to_state
+// @gv bounds="leaving Connected without any successful CONNACK on this connection (transport connected, CONNACK rejected or missing): the back-off is never reset"
+// @gv stubs="as c19_reset_after_stable_connection"
+// @gv timeout=900
+#[kani::proof]
+#[kani::unwind(4)]
+#[kani::stub(std::fmt::format, stub_format)]
+#[kani::stub(std::hash::RandomState::new, stub_random_state_new)]
+#[kani::stub(std::time::Instant::now, stub_now_fixed)]
+#[kani::stub(crate::protocol::ProtocolState::handle_network_event, stub_handle_network_event)]
+#[kani::stub(crate::client::MqttClientImpl::broadcast_event, stub_broadcast)]
+fn c19_no_reset_without_success() { reset_rule_body(false, false) }
+
+// @gv props=C11,C07 tier=quick required=yes fns=MqttClientImpl::transition_to_state
+// @gv bounds="entering Connected (transport established) with any connect timeout Duration the builder accepts and a symbolic attempt start time (< 2^32 s): no panic; the engine is told the establishment deadline start + timeout when that instant is representable"
+// @gv stubs="as c19_reset_after_stable_connection"
+// @gv timeout=900
+#[kani::proof]
+#[kani::unwind(4)]
+#[kani::stub(std::fmt::format, stub_format)]
+#[kani::stub(std::hash::RandomState::new, stub_random_state_new)]
+#[kani::stub(std::time::Instant::now, stub_now_fixed)]
+#[kani::stub(crate::protocol::ProtocolState::handle_network_event, stub_handle_network_event)]
+#[kani::stub(crate::client::MqttClientImpl::broadcast_event, stub_broadcast)]
+fn c11_connect_timeout_any_duration() {
+    let mut opts = any_options(any_jitter());
+    opts.normalize();
+    let mut c = mk_client(opts, opts.base_reconnect_period);
+    c.current_state = ClientImplState::Connecting;
+    c.desired_state = ClientImplState::Connected;
+    let start = zero_instant() + Duration::from_secs(kani::any::<u32>() as u64);
+    c.last_start_connect_time = Some(start);
+    c.connect_timeout = any_duration();
+    unsafe { CLOCK = Some(start); NET_EVENTS = 0; NET_LAST_OPEN_TIMEOUT = None; EV_N = 0; }
+    let r = c.transition_to_state(ClientImplState::Connected); // must not panic for any accepted configuration
+    assert!(r.is_ok());
+    assert!(unsafe { NET_EVENTS } == 1 && unsafe { NET_LAST_KIND } == 1);
+    kani::cover!(start.checked_add(c.connect_timeout).is_none(), "deadline not representable");
+    if let Some(deadline) = start.checked_add(c.connect_timeout) { assert!(unsafe { NET_LAST_OPEN_TIMEOUT } == Some(deadline)); }
+    else { assert!(unsafe { NET_LAST_OPEN_TIMEOUT.unwrap() } > start); }
+    assert!(c.current_state == ClientImplState::Connected);
+    std::mem::forget(r); std::mem::forget(c);
 }
